@@ -27,6 +27,7 @@ EXPLANATION = (
 EXPLANATION += ' Added after the seeded-change rounds: ' + 'D1 also: every ordering comparison on the result of an arbitration RMW (T = --tail, H = ++head) is evaluated signed; D3 also: a task that get_task/steal_task hands out is removed from the index range that is restored or re-published (null hole, or head moved past it) on every path on which the returned pointer is non-null (path-sensitive in the returned variable).'
 EXPLANATION += ' Added in the fourth round of seeded changes: ' + 'D9 also: every waiting call of task_group_base (wait, run_and_wait(F), run_and_wait(task_handle)) resets the group context on every exit, normal and exceptional (exit_coverage: CFG paths, catch(...) handlers, scope-exit idioms classified from their code); D6 also: a per-thread reference vertex is destroyed only where get_num_child() == 0 is known for it; the tree folds are derived from the code (free functions every path of which decrements a node counter by RMW) and the root they hand back is released by every caller.'
 EXPLANATION += ' Added later in the fourth round: ' + 'D9 also: every condition that can end a wait loop (a cycle through commit_wait) is re-evaluated between prepare_wait and commit_wait - task_arena::execute on a full arena re-tries occupy_free_slot after registering on the exit monitor.'
+EXPLANATION += ' Added in the fifth seeding round: ' + 'D11 every slot index that arena::occupy_free_slot hands to a thread has been published to thieves (my_limit raised) on every path that returns it; tracked per path together with what comparisons tell about the index being the no-slot constant.'
 ASSUMPTIONS = ['clang 14 selects the same declarations as the g++ 12 build for the analysed constructs',
                'C++11 memory model; seq_cst RMWs and seq_cst fences are the only full fences',
                'task classes not instantiated by drivers/*.cpp are not analysed']
@@ -50,6 +51,7 @@ def run(facts, rep):
     # task_arena::execute on a full arena: the delegated functor is lost if the caller sleeps although a slot is free
     from rules.C02 import d2_recheck_between_prepare_and_commit
     d2_recheck_between_prepare_and_commit(facts, rep, clause='D9')
+    d11_occupied_slots_are_published(facts, rep)
 
 
 # ---------------------------------------------------------------------------------------------------------------
@@ -659,3 +661,71 @@ def d6_vertex_lifetime(facts, rep):
                    'crashes' % wit, ln=node.get('ln'), key_extra='vertex-dtor')
     if n < 2:
         raise AnalysisBroken('reference_vertex destruction sites: %d (expected the map clean-up and the dispatcher destructor)' % n)
+
+
+def d11_occupied_slots_are_published(facts, rep):
+    """A task spawned into an arena slot can be taken by a thief only if the slot index lies below arena::my_limit: steal_task
+    picks its victims from [0, my_limit) and has_tasks / is_out_of_work scan the same range.  So every slot index that
+    occupy_free_slot hands to a thread (any value other than the `no slot` constant) has been published - my_limit raised to
+    index + 1 - on every path that returns it.  Tracked per path: (limit raised since the index was last assigned, index known to
+    be the `no slot` constant from a comparison or an assignment of that constant)."""
+    from engine.rules import product_walk_from
+    n = 0
+    for fn in facts.get(R1 + 'arena::occupy_free_slot'):
+        upd = set()
+        for pos, s, node, d in calls(fn):
+            if any(last_member(fn, a) == 'my_limit' for a in node.get('a', [])) or \
+               (node.get('obj', -1) >= 0 and last_member(fn, node['obj']) == 'my_limit' and (atomic_op(fn, s) or {}).get('kind') in ('rmw', 'cas', 'store')):
+                upd.add(s)
+        if not upd:
+            raise AnalysisBroken('%s: no update of my_limit found' % fn.q)
+
+        def is_none_const(s):
+            nd = fn.n(fn.strip(s))
+            return nd.get('k') == 'var' and (nd.get('glob') or '').endswith('arena::out_of_arena')
+        rets = [(pos, s, node) for pos, s, node in fn.stmt_elems(('return',)) if node.get('sub', -1) >= 0]
+        for rpos, rs, rnode in rets:
+            if is_none_const(rnode['sub']):
+                continue
+            rv = fn.n(fn.strip(rnode['sub']))
+            if rv.get('k') != 'var':
+                rep.ob('D11', 'K1', fn, 'the returned slot index is a tracked variable', False, 'return of a computed value', ln=rnode['ln'])
+                continue
+            var = rv['v']
+
+            def elem_tr(st, pos, e):
+                if not isinstance(e, int):
+                    return st
+                nd = fn.nodes[e]
+                pub, none = st
+                if e in upd:
+                    return (True, none)
+                if nd.get('k') == 'binop' and nd.get('op') == '=' and fn.n(fn.strip(nd['l'])).get('v') == var and fn.n(fn.strip(nd['l'])).get('k') == 'var':
+                    return (False, is_none_const(nd['r']))
+                if nd.get('k') == 'decl':
+                    for v in nd.get('vars', []):
+                        if v.get('v') == var:
+                            return (False, v.get('init', -1) >= 0 and is_none_const(v['init']))
+                return st
+
+            def edge_tr(st, b, si):
+                pub, none = st
+                for (c, truth) in fn.edge_conds(b, si):
+                    cn = fn.n(c)
+                    if cn.get('k') == 'binop' and cn.get('op') in ('==', '!='):
+                        l, r = cn['l'], cn['r']
+                        for x, y in ((l, r), (r, l)):
+                            xn = fn.n(fn.strip(x))
+                            if xn.get('k') == 'var' and xn.get('v') == var and is_none_const(y):
+                                eq = (cn['op'] == '==') == truth
+                                if none and not eq:
+                                    return None            # infeasible: known to be the constant
+                                none = eq
+                return (pub, none)
+            visits, exits = product_walk_from(fn, (fn.entry, -1), (False, False), elem_tr, edge_tr)
+            bad = [st for (pos, st) in visits if pos == rpos and not st[0] and not st[1]]
+            n += 1
+            rep.ob('D11', 'K1', fn, 'every slot index handed out has been published to thieves (my_limit raised)', not bad,
+                   'a path returns an occupied slot without raising my_limit: work spawned from that slot is invisible to steal_task '
+                   'and has_tasks until some other thread occupies a higher slot', ln=rnode['ln'])
+    rep.floor('D11', 1, 'slot publication')
